@@ -54,8 +54,10 @@ var vcAddrs = []net.IP{
 	net.ParseIP("::ffff:10.0.0.3"), net.ParseIP("fe80::1"),
 	// the same hosts on another port: a different address
 	{10, 0, 0, 1}, {10, 0, 0, 2},
+	// a genuine IPv6 address that merely ends in the bytes of 10.0.0.1
+	net.ParseIP("2001:db8::a00:1"),
 }
-var vcPorts = []uint16{7946, 7946, 7946, 7946, 7946, 7946, 7947, 9000}
+var vcPorts = []uint16{7946, 7946, 7946, 7946, 7946, 7946, 7947, 9000, 7946}
 
 // source-only addresses (handleAlive `from`): ids continue after vcAddrs
 var vcSrcExtra = []string{"[fe80::dead:beef%eth0]:7946", "not-an-ip:7946"}
@@ -560,6 +562,17 @@ type vcSlowEvents struct {
 	depth   atomic.Int32
 	overlap atomic.Bool
 	entered chan struct{}
+	joinsC  atomic.Int32
+}
+
+// an alive delegate that takes its time (the library calls it while deciding about an alive claim)
+type vcSlowAlive struct{}
+
+func (vcSlowAlive) NotifyAlive(n *Node) error {
+	if n.Name == "c" {
+		time.Sleep(30 * time.Millisecond)
+	}
+	return nil
 }
 
 func (e *vcSlowEvents) enter(slow bool) {
@@ -575,7 +588,12 @@ func (e *vcSlowEvents) enter(slow bool) {
 	}
 	e.depth.Add(-1)
 }
-func (e *vcSlowEvents) NotifyJoin(n *Node)   { e.enter(false) }
+func (e *vcSlowEvents) NotifyJoin(n *Node) {
+	if n.Name == "c" {
+		e.joinsC.Add(1)
+	}
+	e.enter(false)
+}
 func (e *vcSlowEvents) NotifyLeave(n *Node)  { e.enter(true) }
 func (e *vcSlowEvents) NotifyUpdate(n *Node) { e.enter(false) }
 
@@ -586,6 +604,9 @@ func vcSerial(t *testing.T, c *vfCase, st *vfStats) {
 	conf.Logger = log.New(io.Discard, "", 0)
 	ev := &vcSlowEvents{entered: make(chan struct{}, 1)}
 	conf.Events = ev
+	if c.Ops[0][0] == 3 {
+		conf.Alive = vcSlowAlive{}
+	}
 	m, err := newMemberlist(conf)
 	if err != nil {
 		t.Fatal(err)
@@ -604,19 +625,34 @@ func vcSerial(t *testing.T, c *vfCase, st *vfStats) {
 			m.deadNode(&dead{Incarnation: 1, Node: "b", From: "x"})
 		case 1:
 			m.deadNode(&dead{Incarnation: 1, Node: "b", From: "b"})
+		case 3:
+			// two claims about a member nobody has seen yet, processed at the same time
+			m.aliveNode(&alive{Incarnation: 1, Node: "c", Addr: []byte{10, 0, 0, 3}, Port: 7946, Vsn: vsn}, nil, false)
 		default:
 			m.mergeState([]pushNodeState{{Name: "b", Addr: []byte{10, 0, 0, 2}, Port: 7946, Incarnation: 1, State: StateLeft, Vsn: vsn}})
 		}
 	}()
 	go func() {
 		defer wg.Done()
-		select {
-		case <-ev.entered:
-		case <-time.After(2 * time.Second):
+		if c.Ops[0][0] != 3 {
+			select {
+			case <-ev.entered:
+			case <-time.After(2 * time.Second):
+			}
 		}
 		m.aliveNode(&alive{Incarnation: 1, Node: "c", Addr: []byte{10, 0, 0, 3}, Port: 7946, Vsn: vsn}, nil, false)
 	}()
 	wg.Wait()
+	// the new member must have joined exactly once and be listed once
+	nc := 0
+	for _, mem := range m.Members() {
+		if mem.Name == "c" {
+			nc++
+		}
+	}
+	if ev.joinsC.Load() != 1 || nc != 1 {
+		ev.overlap.Store(true)
+	}
 	c.Obs = [][]int64{{vcB(ev.overlap.Load())}}
 	st.Ops += 2
 	st.OpHist["concurrent_callbacks"]++
@@ -645,7 +681,7 @@ func TestVfCore(t *testing.T) {
 		}
 	}
 	if !replay && (vfPropEnv() == "" || vfPropEnv() == "C07") {
-		for k := 0; k < 3; k++ {
+		for k := 0; k < 4; k++ {
 			cases = append(cases, vfCase{Tag: "callbacks are serialised", Cfg: []int64{99}, Ops: [][]int64{{int64(k)}}})
 		}
 	}
